@@ -177,6 +177,7 @@ fn resolve(v: &Value) -> Result<Value> {
 }
 
 pub fn exec(v: &Value) -> Result<Value> {
+	if v["op"] == "dl" { return super::dl::exec(v); }
 	let op = v["op"].as_str().context("op")?;
 	Ok(match op {
 		"resolve" => resolve(v)?,
